@@ -195,3 +195,41 @@ def rule_scheduler_forwarded(rep: Report, rule: str, root: Fn) -> int:
                    f"({'/'.join(sorted(names))}): a time-based source without a scheduler of its own falls back to its default "
                    f"(real-time) scheduler -- under a TestScheduler its notifications never appear in virtual time")
     return n
+
+
+NEUTRAL_STAGES = {"as_observable"}      # identity stages: adding one does not change the sequence
+
+
+def pipelines_of(f: Fn) -> List[List[str]]:
+    """Operator-name lists of every `.pipe(...)` / `compose(...)` in f (nested functions included)."""
+    out = []
+    for n in f.all_nodes():
+        if isinstance(n, ast.Call) and ((isinstance(n.func, ast.Attribute) and n.func.attr == "pipe")
+                                        or (isinstance(n.func, ast.Name) and n.func.id in ("compose", "pipe"))):
+            names = []
+            for a in n.args:
+                a2 = a
+                # local alias: `scanner = ops.scan(...)` then `.pipe(scanner, ...)`
+                if isinstance(a2, ast.Name):
+                    for m in f.all_nodes():
+                        if isinstance(m, (ast.Assign, ast.AnnAssign)) and m.value is not None and isinstance(m.value, ast.Call) \
+                                and any(isinstance(t, ast.Name) and t.id == a2.id for t in (m.targets if isinstance(m, ast.Assign) else [m.target])):
+                            a2 = m.value
+                            break
+                while isinstance(a2, ast.Call) and call_name(a2) == "cast" and len(a2.args) == 2:
+                    a2 = a2.args[1]
+                names.append(call_name(a2) if isinstance(a2, ast.Call) else u(a2))
+            out.append([x for x in names if x not in NEUTRAL_STAGES])
+    return out
+
+
+def pipelines_exact(repo: Repo, rep: Report, rule: str, table) -> None:
+    """The composite operator is *exactly* the documented pipeline(s): an extra stage (a filter, a distinct, a take)
+    changes the elements although every documented component is still present."""
+    for (rel, name), want in table.items():
+        f = repo.fn(rel, name)
+        got = pipelines_of(f)
+        ok = sorted(got) == sorted(want)
+        rep.ob(rule, f, f"{name} pipelines == {want}", ok,
+               f"{name} is documented (and confirmed) as the pipeline(s) {want}; it now composes {got}: a stage was added, "
+               f"removed or reordered, so its elements / termination differ from the composition it is specified as")
